@@ -30,13 +30,17 @@ def plan(tier, seed):
     n = 16 if tier == "quick" else 48
     per = 5 if tier == "quick" else 40
     return [{"kind": "sel", "sub": i, "cases": per} for i in range(n)] + \
-           [{"kind": "many", "sub": 900 + i, "cases": 1} for i in range(1 if tier == "quick" else 4)]
+           [{"kind": "many", "sub": 900 + i, "cases": 1} for i in range(1 if tier == "quick" else 4)] + \
+           [{"kind": "narrow", "sub": 950 + i, "cases": 4 if tier == "quick" else 24} for i in range(1 if tier == "quick" else 3)]
 
 
 def run(ctx, shard):
     probes.activate(ctx)
     if shard["kind"] == "many":
         many_contigs(ctx, shard)
+        return
+    if shard["kind"] == "narrow":
+        narrow_ids(ctx, shard)
         return
     rng0 = ctx.rng("plan", shard["sub"])
     for i in range(shard["cases"]):
@@ -412,3 +416,40 @@ def many_contigs(ctx, shard):
         c.nontrivial("many", nct)
         ctx.sample({"many_contigs": nct, "stored_as_enum": is_enum}, limit=6)
     os.remove(path)
+
+
+def narrow_ids(ctx, shard):
+    """Pixel bin ids stored in a narrow signed type whose maximum IS the largest id used (int8: 127, with 129..255
+    bins in the table): every window computed from the ids (max + 1) sits at the edge of the type."""
+    import cooler
+
+    rng0 = ctx.rng("narrow", shard["sub"])
+    for i in range(shard["cases"]):
+        cid = f"narrow:{shard['sub']}:{i}"
+        rng = ctx.rng("narrow-case", shard["sub"], i)
+        if not ctx.want(cid):
+            continue
+        n = int(rng.integers(129, 256))
+        top = int([127, 127, 126, 100][i % 4])
+        bt = [["chrA", list(range(0, n // 2 + 1))], ["chrB", list(range(0, n - n // 2 + 1))]]
+        P = {}
+        for _ in range(int(rng.integers(2, 30))):
+            a, b = sorted((int(rng.integers(top + 1)), int(rng.integers(top + 1))))
+            P[(a, b)] = int(rng.integers(1, 9))
+        P[(int(rng.integers(top + 1)), top)] = 3
+        path = ctx.path()
+        make_cooler(path, bt, P, dtypes={"bin1_id": np.int8, "bin2_id": np.int8},
+                    bins_extra={"gc": np.round(rng.random(n), 3)})
+        T = raw_tables(path)
+        with ctx.case(cid, {"nbins": n, "largest_id": top, "id_dtype": "int8", "nnz": len(P), "encoding": "enum"}) as c:
+            c.feature("bin-id-dtype:int8", f"bin-id-dtype:int8:largest-id={'127' if top == 127 else '<127'}")
+            clr = cooler.Cooler(path)
+            check_annotate(c, cooler, clr, T, rng, n, 8)
+            pcols = ["bin1_id", "bin2_id", "count"]
+            check_selector(c, "pixels", clr.pixels(), {k: T["pixels"][k] for k in pcols}, pcols, rng, 10)
+            j = clr.pixels(join=True)[:]
+            ids1, ids2 = T["pixels"]["bin1_id"].astype(int), T["pixels"]["bin2_id"].astype(int)
+            c.check(col_eq(j["chrom1"], T["bins"]["chrom"][ids1]) and col_eq(j["start2"], T["bins"]["start"][ids2]),
+                    "pixels-join-wrong", "pixels(join=True) with int8 ids does not carry each pixel's own bin coordinates")
+            c.nontrivial("narrow", n, top, repr(sorted(P)))
+        os.remove(path)
